@@ -131,6 +131,7 @@ func session(r *ev.Run, rng *gen.Rand, sidx int) {
 	defer closeAll()
 	t := tables[0]
 	g := proxyrig.NewMySessGen(rng, tables)
+	g.Interleave = true
 	var history []string
 	nrows := 2 + rng.Intn(5)
 	for i := 0; i < nrows+6; i++ {
